@@ -1,19 +1,20 @@
 // C09 — modes "mix" and "burst".
 //
-// mix:   pipelines on go9p.Tag (requests sharing one tag) run while other calls
-//        of the same client (ordinary blocking calls, pipelines of other Tags)
-//        are outstanding; a script fixes the order in which the requests are
-//        issued and the order in which the peer answers them.
-// burst: N callers (and T Tags) issue their calls on a fresh client at the
-//        same moment; the peer holds ALL of them before it answers.
+// mix: pipelines on go9p.Tag (requests sharing one tag) run while other calls
+// of the same client (ordinary blocking calls, pipelines of other Tags) are
+// outstanding; a script fixes the order in which the requests are issued and
+// the order in which the peer answers them.
+//
+// burst: N callers (and T Tags) issue their calls on a fresh client at the same
+// moment; the peer holds ALL of them before it answers.
 package c09
 
 import (
 	"bytes"
 	"encoding/json"
 	"fmt"
-	"runtime"
-	"sync/atomic"
+	"strings"
+	"sync"
 	"testing"
 	"time"
 
@@ -279,6 +280,62 @@ func cutsFor(c *Case, stream []byte, bounds []int) []int {
 	return cuts
 }
 
+// hang: a deadline passed. waiting = number of ordinary calls that are, by
+// construction of the case, still waiting inside Clnt.Rpc for a reply the peer
+// has not written: they are not evidence of anything stuck.
+type hang struct {
+	msg     string
+	waiting int
+}
+
+func (h hang) Error() string { return h.msg }
+
+// culprits filters the goroutine blocks reported by hx.BlockedInGo9p: the
+// processor goroutine of a Tag waiting for work (select in Tag.reqproc) is
+// idle, not stuck, and up to `waiting` callers parked in Clnt.Rpc are expected.
+func culprits(blocked string, waiting int) string {
+	var keep []string
+	for _, blk := range strings.Split(blocked, "\n\n") {
+		if strings.TrimSpace(blk) == "" {
+			continue
+		}
+		lines := strings.Split(blk, "\n")
+		head, inner := lines[0], ""
+		for _, l := range lines[1:] {
+			if strings.HasPrefix(l, "\t") || strings.HasPrefix(l, "runtime.") || strings.HasPrefix(l, "sync.") || strings.HasPrefix(l, "internal/") || strings.HasPrefix(l, "time.") {
+				continue
+			}
+			inner = l
+			break
+		}
+		if strings.Contains(inner, "(*Tag).reqproc") && strings.Contains(head, "[select") {
+			continue
+		}
+		if waiting > 0 && strings.Contains(inner, "(*Clnt).Rpc(") && strings.Contains(head, "[chan receive") {
+			waiting--
+			continue
+		}
+		keep = append(keep, blk)
+	}
+	return strings.Join(keep, "\n\n")
+}
+
+var (
+	maxMu   sync.Mutex
+	maxSeen = map[string]int64{}
+)
+
+// extraMax reports the largest value seen in this process for a max_ coverage key.
+func extraMax(key string, v int64) {
+	maxMu.Lock()
+	if v > maxSeen[key] {
+		maxSeen[key] = v
+	}
+	v = maxSeen[key]
+	maxMu.Unlock()
+	hx.Extra(key, v)
+}
+
 type mixSrc struct {
 	tagged    bool
 	tag       *go9p.Tag
@@ -327,6 +384,24 @@ func runMix(c *Case, p *peer.Peer, clnt *go9p.Clnt, free0 int) error {
 		}
 		srcs[i] = ms
 	}
+	defer func() {
+		// (failure paths) do not leave Tag processors behind
+		for _, ms := range srcs {
+			if ms != nil && ms.tag != nil {
+				go clnt.TagFree(ms.tag)
+			}
+		}
+	}()
+	// ordinary calls whose reply the peer has not written yet
+	waiting := func() int {
+		w := 0
+		for _, ms := range srcs {
+			if !ms.tagged && ms.issued > ms.flushed {
+				w++
+			}
+		}
+		return w
+	}
 	var out []pend // requests the client is waiting for, oldest first
 	var stream []byte
 	var bounds []int
@@ -344,7 +419,7 @@ func runMix(c *Case, p *peer.Peer, clnt *go9p.Clnt, free0 int) error {
 					return err
 				}
 			case <-time.After(deadline):
-				return hangErr(what + " was not delivered although the peer has answered the request")
+				return hang{what + " was not delivered although the peer has answered the request", waiting()}
 			}
 		} else {
 			select {
@@ -353,7 +428,7 @@ func runMix(c *Case, p *peer.Peer, clnt *go9p.Clnt, free0 int) error {
 					return err
 				}
 			case <-time.After(deadline):
-				return hangErr(what + ": the call did not return although the peer has answered it")
+				return hang{what + ": the call did not return although the peer has answered it", waiting()}
 			}
 		}
 		ms.collected++
@@ -399,7 +474,7 @@ func runMix(c *Case, p *peer.Peer, clnt *go9p.Clnt, free0 int) error {
 		}
 		r, _ := p.Next(deadline)
 		if r == nil {
-			return hangErr(fmt.Sprintf("source %d: request %d (%v) did not reach the peer", si, k, o))
+			return hang{fmt.Sprintf("source %d: request %d (%v) did not reach the peer", si, k, o), waiting()}
 		}
 		if err := checkWire(o, r); err != nil {
 			return err
@@ -512,6 +587,7 @@ func runMix(c *Case, p *peer.Peer, clnt *go9p.Clnt, free0 int) error {
 		default:
 		}
 		clnt.TagFree(ms.tag)
+		ms.tag = nil
 	}
 	if o, free := clnt.VerifCounts(); o != 0 {
 		return fmt.Errorf("%d requests still outstanding in the client after every call returned and every Tag completion was delivered", o)
@@ -520,7 +596,7 @@ func runMix(c *Case, p *peer.Peer, clnt *go9p.Clnt, free0 int) error {
 	}
 	hx.ExtraAdd("mix_tag_replies_with_other_calls_outstanding", besideForeign)
 	hx.ExtraAdd("mix_tag_replies_behind_older_call_of_other_tag", behindForeign)
-	hx.Extra("max_pipeline_depth", deepest)
+	extraMax("max_pipeline_depth", deepest)
 	if besideForeign > 0 {
 		b, _ := json.Marshal(c)
 		hx.NonTrivial(b)
@@ -668,19 +744,23 @@ func TestEnumMix(t *testing.T) {
 	for _, g := range cfgs {
 		n := 0
 		enumScripts(g.srcs, func(script []Step) {
-			idx++
 			n++
-			if failed != nil || (hx.NShards > 1 && idx%hx.NShards != hx.Shard) {
-				return
-			}
-			for i := range script {
-				script[i].Flush = idx%2 == 0 // every reply written on its own / replies gathered until the next request
-			}
-			c := &Case{Mode: "mix", Dotu: idx%4 < 2, Msize: 4096, Seed: uint64(idx), Chunks: []string{"frame", "one", "cuts"}[idx%3], CutEvery: 3 + idx%9,
-				NoKinds: idx%5 != 0, Lag: idx%7 == 0, Sources: g.srcs, Script: script}
-			if err := execute("mixenum", c); err != nil {
-				hx.Violation("mixenum", c, err.Error())
-				failed = err
+			// every reply written on its own / replies gathered until the next request is issued
+			for _, fl := range []bool{true, false} {
+				idx++
+				if failed != nil || (hx.NShards > 1 && idx%hx.NShards != hx.Shard) {
+					continue
+				}
+				sc := append([]Step(nil), script...)
+				for i := range sc {
+					sc[i].Flush = fl
+				}
+				c := &Case{Mode: "mix", Dotu: idx%4 < 2, Msize: 4096, Seed: uint64(idx), Chunks: []string{"frame", "one", "cuts"}[idx%3], CutEvery: 3 + idx%9,
+					NoKinds: idx%5 != 0, Lag: idx%7 == 0, Sources: g.srcs, Script: sc}
+				if err := execute("mixenum", c); err != nil {
+					hx.Violation("mixenum", c, err.Error())
+					failed = err
+				}
 			}
 		})
 		hx.Label(fmt.Sprintf("mixenum %s: %d scripts", g.name, n))
@@ -752,16 +832,20 @@ func burstOnce(c *Case, rep int) error {
 			}
 		}
 	}
-	var round, abort int32
-	defer atomic.StoreInt32(&abort, 1)
+	// one gate per round: closing it releases every caller and every Tag at once
+	gates := make([]chan struct{}, rounds)
+	for k := range gates {
+		gates[k] = make(chan struct{})
+	}
+	abort := make(chan struct{})
+	defer close(abort)
 	wait := func(k int) bool {
-		for atomic.LoadInt32(&round) <= int32(k) {
-			if atomic.LoadInt32(&abort) != 0 {
-				return false
-			}
-			runtime.Gosched()
+		select {
+		case <-gates[k]:
+			return true
+		case <-abort:
+			return false
 		}
-		return true
 	}
 	done := make(chan error, (n+nt)*rounds+1)
 	for s := 0; s < n; s++ {
@@ -781,6 +865,9 @@ func burstOnce(c *Case, rep int) error {
 			var tag *go9p.Tag
 			for k := 0; k < rounds; k++ {
 				if !wait(k) {
+					if tag != nil {
+						go clnt.TagFree(tag)
+					}
 					return
 				}
 				if tag == nil {
@@ -793,15 +880,23 @@ func burstOnce(c *Case, rep int) error {
 					}
 				}
 				for j := 0; j < perTag && err == nil; j++ {
+					// (the peer's side has the deadline: it answers once it holds every request of the round)
 					select {
 					case r := <-ch:
 						err = checkDone(c, fmt.Sprintf("client %d Tag %d completion %d", rep, s-n, k*perTag+j), ops[s][k*perTag+j], r)
-					case <-time.After(deadline):
-						err = hangErr(fmt.Sprintf("client %d Tag %d: completion %d was not delivered", rep, s-n, k*perTag+j))
+					case <-abort:
+						go clnt.TagFree(tag)
+						return
 					}
 				}
-				if k == rounds-1 && err == nil {
-					clnt.TagFree(tag)
+				if k == rounds-1 || err != nil {
+					if err == nil {
+						clnt.TagFree(tag)
+					} else {
+						go clnt.TagFree(tag)
+					}
+					done <- err
+					return
 				}
 				done <- err
 			}
@@ -809,7 +904,7 @@ func burstOnce(c *Case, rep int) error {
 	}
 	expect := n + nt*perTag
 	for k := 0; k < rounds; k++ {
-		atomic.StoreInt32(&round, int32(k+1))
+		close(gates[k])
 		batch := make([]*peer.Req, 0, expect)
 		owner := map[uint16]int{}
 		for len(batch) < expect {
@@ -823,7 +918,8 @@ func burstOnce(c *Case, rep int) error {
 					}
 				default:
 				}
-				return hangErr(fmt.Sprintf("burst: client %d round %d: only %d of %d requests reached the peer", rep, k, len(batch), expect))
+				// nothing has been answered yet: every caller that did issue is waiting for the peer, by design
+				return hang{fmt.Sprintf("burst: client %d round %d: only %d of %d requests reached the peer", rep, k, len(batch), expect), n}
 			}
 			if r.Err != nil {
 				return fmt.Errorf("client sent a frame that does not decode strictly: %v: %x", r.Err, r.Raw)
@@ -895,12 +991,12 @@ func burstOnce(c *Case, rep int) error {
 		return fmt.Errorf("only %d tags are free after every call returned, %d were free after Connect (at most 16 may be cached with request slots)", free, free0)
 	}
 	hx.ExtraAdd("burst_clients", 1)
-	hx.Extra("max_held_at_once", int64(expect))
+	extraMax("max_held_at_once", int64(expect))
 	return nil
 }
 
 func TestPropBurst(t *testing.T) {
-	hx.Check(t, "burst", hx.N(100, 600), func(t *rapid.T) {
+	hx.Check(t, "burst", hx.N(80, 600), func(t *rapid.T) {
 		c := &Case{Mode: "burst", Dotu: rapid.Bool().Draw(t, "dotu"), Msize: rapid.SampledFrom([]uint32{512, 4096}).Draw(t, "msize"),
 			Seed: rapid.Uint64().Draw(t, "seed"), Chunks: rapid.SampledFrom([]string{"frame", "one", "cuts"}).Draw(t, "chunks"),
 			CutEvery: rapid.IntRange(1, 40).Draw(t, "cutevery"), NoKinds: rapid.Bool().Draw(t, "nokinds")}
